@@ -60,6 +60,12 @@ static size_t src(void *buf, size_t n, void *u)
 
 static void cb(unsigned int b, unsigned int t, void *u) { (void) u; if (ncb < (1 << 16)) cbs[ncb++] = b; cbtotal = t; }
 
+static void starter(unsigned int b, unsigned int t, void *u)
+{
+	static int nested;
+	cb(b, t, NULL);          /* what this handler is told is part of the one sequence the decoder announces */
+	if (!nested) { nested = 1; lha_decoder_monitor((LHADecoder *) u, cb, NULL); nested = 0; }
+}
 static void pcbs(void)
 {
 	printf("\"cbs\":[");
@@ -78,7 +84,13 @@ static void run_ops(LHADecoder *d, char *ops, size_t declared)
 {
 	char *save = NULL; size_t total = 0; int complete = 0;
 	for (char *op = strtok_r(ops, ",", &save); op; op = strtok_r(NULL, ",", &save)) {
-		if (op[0] == 'M') {
+		if (op[0] == 'W') {
+			/* the monitor is attached from inside a progress callback: a one-shot "start" handler that, when first called, installs
+			 * the handler used from then on.  Both handlers log what they are told: together that is the sequence a single handler attached at this
+			 * point would see (event Monitor). */
+			lha_decoder_monitor(d, starter, d);
+			printf("{\"e\":\"Monitor\","); pcbs(); printf(",\"total\":%u}\n", cbtotal);
+		} else if (op[0] == 'M') {
 			lha_decoder_monitor(d, cb, NULL);
 			printf("{\"e\":\"Monitor\","); pcbs(); printf(",\"total\":%u}\n", cbtotal);
 		} else if (op[0] == 'L') {
